@@ -411,7 +411,7 @@ impl LuaEngine {
         }
     }
     
-    fn calculate_script_sha1(&self, script: &str) -> String {
+    pub fn calculate_script_sha1(&self, script: &str) -> String {
         let mut hasher = Sha1::new();
         hasher.update(script.as_bytes());
         hex::encode(hasher.finalize())
